@@ -59,6 +59,10 @@ BMODELS = [BASE['beam']['models'], [('bcx', ('C', 5, (8, 7)))], [('bem', ('D', 0
 GEOMS = [('box', 1.0, 1.0, 1.0), ('sphere', 0.9), ('cyl', 0.8, 1.6), ('box', 0.6, 1.2, 0.9)]
 
 
+NOARG = ('beam.plasma', 'laser.plasma', 'laser.laser_profile(same-object)', 'laser.laser_spectrum(same-object)',
+         'beam.attenuator(same-object)', 'plasma.atomic_data(same-object)')
+
+
 def _other(rng, pool, cur):
     c = [p for p in pool if p != cur]
     return copy.deepcopy(rng.choice(c))
@@ -202,6 +206,10 @@ def mutators(S):
         lambda L, v: setattr(L.laser, 'laser_spectrum', S.laser_spectrum(v)), setc(La, 'spectrum'))
     reg('laser.laser_profile', lambda r, c: _other(r, [('uniform', 1e3, 2.0, 0.05), ('uniform', 2e3, 1.5, 0.08), ('cbg', 1.0, 1e-8, 0.06, 2.0, 0.02, 0.03)], tuple(c[La]['profile'])),
         lambda L, v: setattr(L.laser, 'laser_profile', S.laser_profile(v)), setc(La, 'profile'))
+    reg('laser.laser_profile(same-object)', lambda r, c: None, lambda L, v: setattr(L.laser, 'laser_profile', L.laser.laser_profile), lambda cfg, v: None)
+    reg('laser.laser_spectrum(same-object)', lambda r, c: None, lambda L, v: setattr(L.laser, 'laser_spectrum', L.laser.laser_spectrum), lambda cfg, v: None)
+    reg('beam.attenuator(same-object)', lambda r, c: None, lambda L, v: setattr(L.beam, 'attenuator', L.beam.attenuator), lambda cfg, v: None)
+    reg('plasma.atomic_data(same-object)', lambda r, c: None, lambda L, v: setattr(L.plasma, 'atomic_data', L.plasma.atomic_data), lambda cfg, v: None)
     reg('laser.plasma', lambda r, c: None, lambda L, v: setattr(L.laser, 'plasma', L.plasma), lambda cfg, v: None)
     reg('laser.models', lambda r, c: _other(r, [1, 2], c[La]['models']),
         lambda L, v: setattr(L.laser, 'models', [S.SeldenMatobaThomsonSpectrum() for _ in range(v)]), setc(La, 'models'))
@@ -304,7 +312,7 @@ def gen_history(rng, M, cfg0, names, length, obs_p=0.4):
             nm = rng.choice(names)
             gen, act, upd = M[nm]
             v = gen(rng, cfg)
-            if nm in ('beam.plasma', 'laser.plasma') or v is not None:
+            if nm in NOARG or v is not None:
                 break
         else:
             continue
@@ -347,16 +355,25 @@ def search(ctx, S, M):
     for nm in names:
         gen, act, upd = M[nm]
         v = gen(ctx.rng, BASE)
-        if v is None and nm not in ('beam.plasma', 'laser.plasma'):
+        if v is None and nm not in NOARG:
             continue
         singles.append((nm, v))
         test([(nm, v)], 'single')
         if nm not in ('plasma.models.add', 'beam.models.add'):
             vb = gen(ctx.rng, BARE)
-            if vb is not None or nm in ('beam.plasma', 'laser.plasma'):
+            if vb is not None or nm in NOARG:
                 test([(nm, vb), ('plasma.models', PMODELS[0]), ('beam.models', BMODELS[0]), ('laser.models', 1)], 'bare-single', BARE)
         test([('obs',), (nm, v)], 'obs-single')
     pairs = 0
+    for a in singles:
+        # the same mutator twice: change, observe, change again (back to the original value where the pool allows it)
+        if a[0] not in NOARG:
+            cfg = copy.deepcopy(BASE)
+            M[a[0]][2](cfg, copy.deepcopy(a[1]))
+            for _rep in range(5):
+                v2 = M[a[0]][0](ctx.rng, cfg)
+                if v2 is not None:
+                    test([('obs',), a, ('obs',), (a[0], v2)], 'same-twice')
     for a in singles:
         for b in singles:
             if a[0] == b[0]:
@@ -366,7 +383,7 @@ def search(ctx, S, M):
             cfg = copy.deepcopy(BASE)
             M[a[0]][2](cfg, copy.deepcopy(a[1]))
             vb = M[b[0]][0](ctx.rng, cfg)
-            if vb is None and b[0] not in ('beam.plasma', 'laser.plasma'):
+            if vb is None and b[0] not in NOARG:
                 continue
             test([('obs',), a, ('obs',), (b[0], vb)], 'pair')
             pairs += 1
@@ -475,7 +492,7 @@ def refill_correspondence(ctx, S, M):
         for d in L.data.values():
             d.calls.clear()
         v = gen(ctx.rng, cfg)
-        if v is None and n not in ('beam.plasma', 'laser.plasma'):
+        if v is None and n not in NOARG:
             continue
         try:
             act(L, copy.deepcopy(v))
